@@ -173,8 +173,15 @@ Record config := {
   c_pac : option (target -> pac_res);         (* PAC resolver: FindProxyForURL(r.URL, "") *)
   c_direct : option (str -> bool);            (* DirectDomains matcher *)
   c_lh_mode : str;                            (* ProxyLocalhost *)
-  c_is_localhost : str -> bool                (* hp.isLocalhost *)
+  c_is_localhost : str -> bool;               (* hp.isLocalhost (itself maps the name the way the transport does) *)
+  c_idna : str -> str                         (* oracle: golang.org/x/net/idna Lookup.ToASCII as net/http and
+                                                 asciiHostname use it; the identity on ASCII names and on names
+                                                 the mapping rejects *)
+  ; c_puny : str -> str                         (* oracle: idna.ToASCII (plain Punycode, NO compatibility mapping) as
+                                                 httpguts.PunycodeHostPort uses it when a request is written *)
 }.
+
+Definition is_ascii (s : str) : bool := forallb (fun c => c <? 128) s.
 
 Definition arm_fn (cfg : config) (tag : str) : option proxy_fn :=
   if str_eqb tag (b "func") then c_upfunc cfg
@@ -199,7 +206,12 @@ Definition wrap_direct (pred : str -> bool) (fn : option proxy_fn) : option prox
 
 Definition apply_wrapper (cfg : config) (fn : option proxy_fn) (w : str) : option proxy_fn :=
   if str_eqb w (b "direct-domains") then
-    match c_direct cfg with Some pred => wrap_direct pred fn | None => fn end
+    (* the matcher is asked about the name as written and, when the source does so, about the name the
+       transport will connect to (asciiHostname) *)
+    match c_direct cfg with
+    | Some m => wrap_direct (fun h => m h || (direct_domains_maps_idna && m (c_idna cfg h))) fn
+    | None => fn
+    end
   else if str_eqb w (b "direct-localhost") then
     if str_eqb (c_lh_mode cfg) localhost_direct_const then wrap_direct (c_is_localhost cfg) fn else fn
   else fn.
@@ -261,12 +273,22 @@ Definition connect_addr (handler hostport : str) : str :=
 
 (* MODELLED net/http canonicalAddr (ASCII hosts; IDNA conversion is outside the model); portMap and the
    SOCKS schemes of dialConn are read from the toolchain's own transport.go (Tables.v) *)
-Definition canonical_addr (scheme hostport : str) : str :=
+Definition canonical_addr (idna : str -> str) (scheme hostport : str) : str :=
   let p := url_port hostport in
-  join_host_port (url_hostname hostport)
+  join_host_port (idna (url_hostname hostport))
     (if is_empty p then match assoc scheme transport_port_map with Some d => d | None => [] end else p).
 
-Definition route_connect (rules : list rule) (pr : presult) (t : target) : outcome :=
+(* MODELLED net/http Request.write (httpguts.PunycodeHostPort): the host an HTTP party is told (Host field, the
+   authority of an absolute URI, the authority of a CONNECT written with Request.Write) is Punycode-encoded
+   label by label WITHOUT the compatibility mapping the Transport applies to the name it connects to *)
+Definition puny_hostport (puny : str -> str) (hp : str) : str :=
+  if is_ascii hp then hp
+  else match split_host_port hp with
+       | Some (h, p) => join_host_port (puny h) p
+       | None => puny hp
+       end.
+
+Definition route_connect (puny : str -> str) (rules : list rule) (pr : presult) (t : target) : outcome :=
   match pr with
   | PFail => OFail
   | PDirect => OSent (dial_redirect rules (t_urlhost t)) false WDirect []
@@ -274,35 +296,37 @@ Definition route_connect (rules : list rule) (pr : presult) (t : target) : outco
       match connect_handler sch with
       | None => OFail                                (* default arm: unsupported proxy scheme *)
       | Some h =>
-          (* both dialers are asked for req.URL.Host: dialvia/http.go writes `CONNECT addr`, socks5 sends addr *)
+          (* both dialers are asked for req.URL.Host: x/net/proxy sends that address as is; dialvia/http.go
+             writes `CONNECT addr` with Request.Write, which maps the host to ASCII *)
           if str_eqb h (b "connectSOCKS5")
           then OSent (dial_redirect rules (connect_addr h hp)) false WSocks (t_urlhost t)
-          else OSent (dial_redirect rules (connect_addr h hp)) (str_eqb sch dialvia_http_tls_scheme) WConnect (t_urlhost t)
+          else OSent (dial_redirect rules (connect_addr h hp)) (str_eqb sch dialvia_http_tls_scheme) WConnect
+                     (puny_hostport puny (t_urlhost t))
       end
   end.
 
 (* MODELLED net/http.Transport.dialConn: TLS to the first hop iff its scheme is https; socks5/socks5h speak
    SOCKS5; EVERY other proxy scheme is used as an HTTP proxy (absolute form for http targets, CONNECT for https) *)
-Definition route_plain (rules : list rule) (pr : presult) (t : target) : outcome :=
+Definition route_plain (idna puny : str -> str) (rules : list rule) (pr : presult) (t : target) : outcome :=
   match pr with
   | PFail => OFail
-  | PDirect => OSent (dial_redirect rules (canonical_addr (t_scheme t) (t_urlhost t)))
-                     (str_eqb (t_scheme t) (b "https")) WDirect (t_urlhost t)
+  | PDirect => OSent (dial_redirect rules (canonical_addr idna (t_scheme t) (t_urlhost t)))
+                     (str_eqb (t_scheme t) (b "https")) WDirect (puny_hostport puny (t_urlhost t))
   | PUrl sch hp =>
-      let addr := dial_redirect rules (canonical_addr sch hp) in
-      let target := canonical_addr (t_scheme t) (t_urlhost t) in     (* cm.targetAddr *)
+      let addr := dial_redirect rules (canonical_addr idna sch hp) in
+      let target := canonical_addr idna (t_scheme t) (t_urlhost t) in     (* cm.targetAddr *)
       if mem sch transport_socks_schemes then OSent addr false WSocks target
       else if str_eqb (t_scheme t) (b "http")
-           then OSent addr (str_eqb sch (b "https")) WAbs (t_urlhost t)   (* absolute URI with the request's host *)
+           then OSent addr (str_eqb sch (b "https")) WAbs (puny_hostport puny (t_urlhost t)) (* absolute URI *)
            else OSent addr (str_eqb sch (b "https")) WConnect target
   end.
 
 Definition route (cfg : config) (rules : list rule) (t : target) : outcome :=
   match t_kind t with
-  | Connect => if connect_uses_proxy_func then route_connect rules (proxy_for cfg t) t
-               else route_connect rules PDirect t
-  | Plain => if transport_shares_proxy_func then route_plain rules (proxy_for cfg t) t
-             else route_plain rules PDirect t
+  | Connect => if connect_uses_proxy_func then route_connect (c_puny cfg) rules (proxy_for cfg t) t
+               else route_connect (c_puny cfg) rules PDirect t
+  | Plain => if transport_shares_proxy_func then route_plain (c_idna cfg) (c_puny cfg) rules (proxy_for cfg t) t
+             else route_plain (c_idna cfg) (c_puny cfg) rules PDirect t
   end.
 
 (* ------------------------------------------------------------------ one exchange as a trace of socket events *)
